@@ -22,7 +22,7 @@ from mc.codec import cell_eq, is_nan, show
 
 PROPERTY = 'C11'
 ASSUMPTIONS = [
-    'key columns never hold NaN (NaN keys are outside the statement\'s domain); NaN only occurs in the payload column f',
+    'listby / groupby key columns never hold NaN; the pivot x key may be NaN (a fresh float object per row, one key); NaN also occurs in the payload column f',
     'which representative of a class of ==-equal keys (1 / 1.0) is shown in the key cell is unspecified: keys and rows are compared with == (NaN-aware), never by repr or type',
     'column order of every result is unspecified (column SETS and row dicts are compared); the row order of groupby / pivot / unpivot results is unspecified '
     '(compared as sets of groups / multisets of rows); the row order of listby follows from unlist() == stable sort',
@@ -55,6 +55,8 @@ def _keyeq(k1, k2):
         if len(k1) != len(k2):
             return False
         for x, y in zip(k1, k2):
+            if is_nan(x) and is_nan(y):
+                continue                      # NaN keys are one key whatever the identity of the float objects (pivot x keys, see PA)
             if (x is None) != (y is None) or is_nan(x) or is_nan(y) or isinstance(x, (list, tuple, dict)) or isinstance(y, (list, tuple, dict)):
                 return False
             if not bool(x == y):
@@ -439,7 +441,7 @@ def _check_groupby(out, G, key, nonkey, arg, tdesc, sig, rows, groups, n):
 
 # ------------------------------------------------------------------------------------------------ pivot / unpivot
 
-PA = [1, 1.0, 'x']            # x column a (1 and 1.0 are one key)
+PA = [1, 1.0, 'x', 'NAN']     # x column a (1 and 1.0 are one key; 'NAN' = a fresh float('nan') object in every row: still ONE key)
 PB = [None, 2]                # x column b
 YS = ['p', 'q']               # the string-valued y column
 YI = [1, 2]                   # the int-valued y column
@@ -461,7 +463,7 @@ def gen_pivots(rows_x1, rows_x2, wide):
     """family x1: x = 'a', (a, y) over 3 x 2 values per row, b a fixed function of the row number;
        family x2: x = ('a','b'), (a, b, y) over |A| x 2 x 2 values per row (A = all of PA when wide, else [1, 1.0])"""
     for n in range(rows_x1 + 1):
-        for xs in itertools.product(range(6), repeat=n):
+        for xs in itertools.product(range(8), repeat=n):
             yield {'x': 'a', 'a': [i // 2 for i in xs], 'b': [i % 2 for i in range(n)], 'y': [i % 2 for i in xs]}
     na = 3 if wide else 2
     for n in range(rows_x2 + 1):
@@ -472,7 +474,7 @@ def gen_pivots(rows_x1, rows_x2, wide):
 def check_pivot(case):
     from pyg_base import dictable
     out = Out()
-    a = [PA[i] for i in case['a']]
+    a = [float('nan') if PA[i] == 'NAN' else PA[i] for i in case['a']]
     b = [PB[i] for i in case['b']]
     n = len(a)
     # in the one-key family the key column carries a name of which every y label ('p', 'q', '1', '2') is a substring: labels are turned into
